@@ -2,6 +2,7 @@
   C18 — a constructed object is an immutable value with total, pure accessors.
 -/
 import Cvss.Model.Json
+import Cvss.Props.C10
 namespace Cvss.Props.C18
 open Cvss Cvss.Model
 
@@ -26,11 +27,23 @@ def runOps (o : AnyObj) : List Op → AnyObj × List Out
   | [] => (o, [])
   | op :: rest => let r := step o op; let q := runOps r.1 rest; (q.1, r.2 :: q.2)
 
-/-- for every sequence of accessor calls the object is unchanged and each output is the single-call
+/-- for every sequence of accessor calls the object is unchanged and each output equals the single-call
     output (in the model the object is an immutable value; the Python object is tied by correspondence) -/
 theorem accessors_pure (o : AnyObj) (ops : List Op) : (runOps o ops).1 = o ∧ (runOps o ops).2 = ops.map (call o) := by
   induction ops with
   | nil => simp [runOps]
   | cons op rest ih => simp [runOps, step, ih.1, ih.2]
+
+/-- TOTAL: on a constructed v2 / v3 object the only accessor that could fail in the model — `as_json`, through a
+    missing table entry — never does, for any options -/
+theorem accessors_total_v2 (s : Str) (o : V2.Obj) (h : V2.construct s = .ok o) (sort minimal : Bool) :
+    ((AnyObj.o2 o).asJson sort minimal).isSome = true := by
+  obtain ⟨j, hj, -⟩ := C10.v2_json_valid s o h sort minimal
+  simp only [AnyObj.asJson, hj, Option.isSome_some]
+
+theorem accessors_total_v3 (s : Str) (o : V3.Obj) (h : V3.construct s = .ok o) (sort minimal : Bool) :
+    ((AnyObj.o3 o).asJson sort minimal).isSome = true := by
+  obtain ⟨j, hj, -⟩ := C10.v3_json_valid s o h sort minimal
+  simp only [AnyObj.asJson, hj, Option.isSome_some]
 
 end Cvss.Props.C18
